@@ -248,6 +248,24 @@ func (a *agg) add(r *core.Result) {
 	}
 }
 
+// binSrc: where ./run left the binaries built from the tree under test (tools/trymut.sh points
+// this at a scratch directory holding binaries built from a scratch copy of the repository).
+func binSrc() string {
+	if d := os.Getenv("VERIF_BIN_SRC"); d != "" {
+		return d
+	}
+	return filepath.Join(verifRoot, "bin")
+}
+
+// outRoot: evidence/ and replays/ live under /verif, except for scratch runs against a mutated
+// copy of the repository, which must not overwrite the evidence of the real tree.
+func outRoot() string {
+	if d := os.Getenv("VERIF_OUT_ROOT"); d != "" {
+		return d
+	}
+	return verifRoot
+}
+
 func (a *agg) addViol(key string, r *core.Result) {
 	if _, ok := a.viols[key]; !ok {
 		a.viols[key] = r
@@ -283,7 +301,7 @@ func parentMain(args []string) int {
 	bindir := filepath.Join(work, "bin")
 	os.MkdirAll(bindir, 0755)
 	for _, b := range []string{"vcheck", "zygo", "vcheck-race"} {
-		src := filepath.Join(verifRoot, "bin", b)
+		src := filepath.Join(binSrc(), b)
 		if b == "vcheck" {
 			src = self
 		}
@@ -703,7 +721,7 @@ func report(p *core.Prop, ctx *core.Ctx, a *agg, ncases int, wall float64, san m
 			known[f.Key] = f
 		}
 	}
-	rdir := filepath.Join(verifRoot, "replays", p.ID)
+	rdir := filepath.Join(outRoot(), "replays", p.ID)
 	os.RemoveAll(rdir)
 	newViol := 0
 	knownSeen := 0
@@ -772,8 +790,8 @@ func report(p *core.Prop, ctx *core.Ctx, a *agg, ncases int, wall float64, san m
 		"coverage": cov, "assumptions": p.Assumptions, "wall_s": wall, "violations": newViol,
 	}
 	b, _ := json.MarshalIndent(ev, "", " ")
-	os.MkdirAll(filepath.Join(verifRoot, "evidence"), 0755)
-	os.WriteFile(filepath.Join(verifRoot, "evidence", p.ID+".json"), b, 0644)
+	os.MkdirAll(filepath.Join(outRoot(), "evidence"), 0755)
+	os.WriteFile(filepath.Join(outRoot(), "evidence", p.ID+".json"), b, 0644)
 
 	evNames := []string{}
 	for k := range a.events {
